@@ -12,6 +12,10 @@ class OutOfFragment(Exception):
     pass
 
 
+class SignedOverflow(OutOfFragment):
+    pass
+
+
 class _Return(Exception):
     def __init__(self, v):
         self.v = v
@@ -1023,6 +1027,11 @@ def _binop(op, a, b, t):
             return a >= b
         if op in ('+', '-', '*') and isinstance(a, int) and isinstance(b, int) and _unsigned(t):
             return _wrap(a + b if op == '+' else a - b if op == '-' else a * b, t)       # unsigned arithmetic is modular
+        if op in ('+', '-', '*') and isinstance(a, int) and isinstance(b, int) and not isinstance(a, bool) and not isinstance(b, bool) and t.replace('const ', '').strip() in ('int', 'int32_t', 'ccl::object::DataID', 'ccl::object::Size'):
+            r = a + b if op == '+' else a - b if op == '-' else a * b
+            if not (-2 ** 31 <= r < 2 ** 31):
+                raise SignedOverflow('signed overflow in %d %s %d (type %s): undefined behaviour' % (a, op, b, t))
+            return r
         if op == '+':
             return a + b
         if op == '-':
